@@ -142,6 +142,60 @@ impl Elem for Complex<f64> {
 const HELPER_TOL: f64 = 1e-9;
 
 // =========================================================================================
+// evidence counters: sharded, flushed into the run context once at the end of `run()`
+// (the framework's counters take one global lock per call; at ~25 counter updates per
+// tiny diagram that lock was the bottleneck of the whole monitor)
+// =========================================================================================
+
+const SHARDS: usize = 64;
+static NEXT_SHARD: std::sync::atomic::AtomicUsize = std::sync::atomic::AtomicUsize::new(0);
+thread_local! {
+    static MY_SHARD: usize = NEXT_SHARD.fetch_add(1, std::sync::atomic::Ordering::Relaxed) % SHARDS;
+}
+type Shard = std::sync::Mutex<(std::collections::BTreeMap<String, u64>, std::collections::BTreeMap<String, u64>)>;
+static ACC: std::sync::OnceLock<Vec<Shard>> = std::sync::OnceLock::new();
+
+fn shard() -> &'static Shard {
+    let v = ACC.get_or_init(|| (0..SHARDS).map(|_| std::sync::Mutex::new(Default::default())).collect());
+    &v[MY_SHARD.with(|s| *s)]
+}
+
+fn cnt(key: &str, n: u64) {
+    let mut g = shard().lock().unwrap_or_else(|e| e.into_inner());
+    match g.0.get_mut(key) {
+        Some(x) => *x += n,
+        None => {
+            g.0.insert(key.to_string(), n);
+        }
+    }
+}
+
+fn mx(key: &str, v: u64) {
+    let mut g = shard().lock().unwrap_or_else(|e| e.into_inner());
+    match g.1.get_mut(key) {
+        Some(x) => *x = (*x).max(v),
+        None => {
+            g.1.insert(key.to_string(), v);
+        }
+    }
+}
+
+fn flush_counters() {
+    let c = ctx();
+    if let Some(v) = ACC.get() {
+        for s in v {
+            let mut g = s.lock().unwrap_or_else(|e| e.into_inner());
+            for (k, n) in std::mem::take(&mut g.0) {
+                c.count(&k, n);
+            }
+            for (k, n) in std::mem::take(&mut g.1) {
+                c.maximum(&k, n);
+            }
+        }
+    }
+}
+
+// =========================================================================================
 // reading quizx tensors; entry-wise comparison
 // =========================================================================================
 
@@ -450,10 +504,17 @@ pub fn judge_circuit(c: &Circ) -> (Vec<Finding>, JudgeStats) {
     (out, stats)
 }
 
-/// Greedy 1-minimal circuit with respect to "a finding with signature `sig` is produced",
-/// followed by removal of unused qubits.
-pub fn minimise_circuit(c: &Circ, sig: &str) -> Circ {
-    let fails = |c: &Circ| judge_circuit(c).0.iter().any(|f| f.sig == sig);
+/// `call site|failure kind` of a signature: what a witness is minimised against. The third
+/// component (the value-mismatch class) is taken from the MINIMISED witness, so that one
+/// root cause does not spread over several signatures.
+pub fn sig_prefix(sig: &str) -> String {
+    sig.split('|').take(2).collect::<Vec<_>>().join("|")
+}
+
+/// Greedy 1-minimal circuit with respect to "a finding whose signature starts with
+/// `sig_prefix` is produced", followed by removal of unused qubits.
+pub fn minimise_circuit(c: &Circ, sig_prefix: &str) -> Circ {
+    let fails = |c: &Circ| judge_circuit(c).0.iter().any(|f| f.sig.starts_with(sig_prefix));
     let mut cur = c.clone();
     let mut progress = true;
     while progress {
@@ -512,7 +573,11 @@ fn gate_kinds(c: &Circ) -> String {
     let mut k: Vec<&str> = c.gates.iter().map(|g| g.name()).collect();
     k.sort();
     k.dedup();
-    k.join("+")
+    if k.is_empty() {
+        "none".to_string()
+    } else {
+        k.join("+")
+    }
 }
 
 // =========================================================================================
@@ -561,27 +626,33 @@ fn check_diagram(family: &'static str, index: u64, r: &mut Rng, d: &DDesc, mode:
                 return;
             }
         };
-        c.count(&format!("graph-evaluations:{backend}"), 2);
-        c.count("tensor4-entries-compared-exactly", stats.entries_exact as u64);
-        c.count("tensor4-entries-compared-in-float", stats.entries4_float as u64);
-        c.count("tensorf-entries-compared", stats.entries_float as u64);
-        c.count("approx-flagged-entries-in-exact-diagrams", stats.approx_entries_in_exact_case as u64);
-        c.count(if stats.oracle_exact { "diagrams-with-exact-oracle" } else { "diagrams-with-float-oracle" }, 1);
-        c.maximum("max-boundaries", stats.n_bnd as u64);
+        cnt(&format!("graph-evaluations:{backend}"), 2);
+        cnt("tensor4-entries-compared-exactly", stats.entries_exact as u64);
+        cnt("tensor4-entries-compared-in-float", stats.entries4_float as u64);
+        cnt("tensorf-entries-compared", stats.entries_float as u64);
+        cnt("approx-flagged-entries-in-exact-diagrams", stats.approx_entries_in_exact_case as u64);
+        cnt(if stats.oracle_exact { "diagrams-with-exact-oracle" } else { "diagrams-with-float-oracle" }, 1);
+        mx("max-boundaries", stats.n_bnd as u64);
         for f in findings {
             // minimise on the description (same backend, same scramble and scalar mode)
-            let sig = f.sig.clone();
-            let fails = |dd: &DDesc| -> bool {
-                let r = if backend == "vec" {
+            let prefix = sig_prefix(&f.sig);
+            let judge_desc = |dd: &DDesc| {
+                if backend == "vec" {
                     judge_graph(&build_for::<quizx::vec_graph::Graph>(dd, scr, mode, extra))
                 } else {
                     judge_graph(&build_for::<quizx::hash_graph::Graph>(dd, scr, mode, extra))
-                };
-                matches!(r, Ok((fs, _)) if fs.iter().any(|x| x.sig == sig))
+                }
             };
+            let fails = |dd: &DDesc| -> bool { matches!(judge_desc(dd), Ok((fs, _)) if fs.iter().any(|x| x.sig.starts_with(&prefix))) };
             let small = minimise(d, &fails);
+            // the class (third component) is that of the minimised witness
+            let small_sig = match judge_desc(&small) {
+                Ok((fs, _)) => fs.iter().find(|x| x.sig.starts_with(&prefix)).map(|x| x.sig.clone()),
+                _ => None,
+            }
+            .unwrap_or_else(|| f.sig.clone());
             c.violation(
-                &f.sig,
+                &small_sig,
                 family,
                 index,
                 json!({
@@ -597,10 +668,10 @@ fn check_diagram(family: &'static str, index: u64, r: &mut Rng, d: &DDesc, mode:
     }
     let stats = any_stats.unwrap();
     for n in flags.names() {
-        c.count(&format!("shape:{n}"), 1);
+        cnt(&format!("shape:{n}"), 1);
     }
     if d.inputs.len() > 0 && d.outputs.len() > 0 {
-        c.count("shape:has-inputs-and-outputs", 1);
+        cnt("shape:has-inputs-and-outputs", 1);
     }
     let nontrivial = d.verts.len() >= 2 && !d.edges.is_empty() && stats.nonzero;
     c.case(family, if nontrivial { Some(d.hash() ^ (mode as u64)) } else { None });
@@ -615,21 +686,24 @@ fn check_diagram(family: &'static str, index: u64, r: &mut Rng, d: &DDesc, mode:
 fn check_circuit(family: &'static str, index: u64, circ: &Circ) {
     let c = ctx();
     let (findings, stats) = judge_circuit(circ);
-    c.count("circuit-evaluations", 2);
-    c.count("tensor4-entries-compared-exactly", stats.entries_exact as u64);
-    c.count("tensor4-entries-compared-in-float", stats.entries4_float as u64);
-    c.count("tensorf-entries-compared", stats.entries_float as u64);
-    c.count(if stats.oracle_exact { "circuits-with-exact-oracle" } else { "circuits-with-float-oracle" }, 1);
-    c.maximum("max-circuit-qubits", circ.n as u64);
-    c.maximum("max-circuit-gates", circ.gates.len() as u64);
+    cnt("circuit-evaluations", 2);
+    cnt("tensor4-entries-compared-exactly", stats.entries_exact as u64);
+    cnt("tensor4-entries-compared-in-float", stats.entries4_float as u64);
+    cnt("tensorf-entries-compared", stats.entries_float as u64);
+    cnt(if stats.oracle_exact { "circuits-with-exact-oracle" } else { "circuits-with-float-oracle" }, 1);
+    mx("max-circuit-qubits", circ.n as u64);
+    mx("max-circuit-gates", circ.gates.len() as u64);
     for g in &circ.gates {
-        c.count(&format!("gate:{}", g.name()), 1);
+        cnt(&format!("gate:{}", g.name()), 1);
     }
     for f in findings {
-        let small = minimise_circuit(circ, &f.sig);
+        let prefix = sig_prefix(&f.sig);
+        let small = minimise_circuit(circ, &prefix);
         let (sf, _) = judge_circuit(&small);
-        let small_detail = sf.iter().find(|x| x.sig == f.sig).map(|x| x.detail.clone());
-        let sig = if f.sig.contains("|panic|") { f.sig.clone() } else { format!("{}|gates={}", f.sig, gate_kinds(&small)) };
+        let small_f = sf.iter().find(|x| x.sig.starts_with(&prefix));
+        let small_detail = small_f.map(|x| x.detail.clone());
+        let small_sig = small_f.map(|x| x.sig.clone()).unwrap_or_else(|| f.sig.clone());
+        let sig = if small_sig.contains("|panic|") { small_sig } else { format!("{}|gates={}", small_sig, gate_kinds(&small)) };
         c.violation(
             &sig,
             family,
@@ -825,7 +899,7 @@ fn run_constructors<A: Elem>(family: &'static str) {
         if let Some(fi) = judge_result::<A>(&site, "constructor", res, exp, json!({"call": name})) {
             c.violation(&fi.sig, family, i, fi.detail);
         }
-        c.count(&format!("helper:{site}<{}>", A::NAME), 1);
+        cnt(&format!("helper:{site}<{}>", A::NAME), 1);
         c.case(family, Some(hash_bytes(format!("{}{}", A::NAME, name).as_bytes())));
     });
 }
@@ -882,7 +956,7 @@ fn check_inplace<A: Elem>(family: &'static str, index: u64, r: &mut Rng) {
             }
             t2
         });
-        c.count(&format!("helper:{site}<{}>:{}", A::NAME, layout.name()), 1);
+        cnt(&format!("helper:{site}<{}>:{}", A::NAME, layout.name()), 1);
         let input = json!({"tensor": mt_json::<A>(&m0), "layout": format!("{layout:?}"), "operations": history});
         let cond = if layout == Layout::Standard { "standard-layout" } else { "nonstandard-layout" };
         match judge_result::<A>(site, cond, res.clone(), &exp, input) {
@@ -951,10 +1025,10 @@ fn check_plug<A: Elem>(family: &'static str, index: u64, r: &mut Rng) {
         "self": mt_json::<A>(&ma), "self_layout": format!("{la:?}"),
         "other": mt_json::<A>(&mb), "other_layout": format!("{lb:?}"), "n": n,
     });
-    c.count(&format!("helper:plug_n_qubits<{}>", A::NAME), 1);
-    c.count(&format!("plug:self-layout={}", la.name()), 1);
-    c.count(&format!("plug:other-layout={}", lb.name()), 1);
-    c.count(
+    cnt(&format!("helper:plug_n_qubits<{}>", A::NAME), 1);
+    cnt(&format!("plug:self-layout={}", la.name()), 1);
+    cnt(&format!("plug:other-layout={}", lb.name()), 1);
+    cnt(
         if d2 == 2 * n {
             "plug:other-ndim=2n"
         } else if d2 > 2 * n {
@@ -964,7 +1038,7 @@ fn check_plug<A: Elem>(family: &'static str, index: u64, r: &mut Rng) {
         },
         1,
     );
-    c.count(&format!("plug:n={n}"), 1);
+    cnt(&format!("plug:n={n}"), 1);
     let first = judge_result::<A>("plug_n_qubits", "?", run(la, lb), &exp, input.clone());
     if let Some(f) = first {
         // attribute the failure: remove the non-baseline conditions one at a time
@@ -1118,7 +1192,7 @@ fn reshape_first_two(t: &Tensor4) -> Tensor4 {
 
 fn report_bool(site: &str, ty: &str, class: &str, got: Result<bool, Caught>, want: bool, family: &'static str, index: u64, input: &Value) {
     let c = ctx();
-    c.count(&format!("compare:{site}<{ty}>:model={want}"), 1);
+    cnt(&format!("compare:{site}<{ty}>:model={want}"), 1);
     match got {
         Ok(b) if b == want => {}
         Ok(b) => c.violation(
@@ -1149,7 +1223,7 @@ fn check_pair4(family: &'static str, index: u64, r: &mut Rng) {
         "class": class, "t0": mt_json::<Scalar4>(&mt), "t0_layout": format!("{lt:?}"), "t0_shape": t.shape(),
         "t1": mt_json::<Scalar4>(&mu), "t1_layout": format!("{lu:?}"), "t1_shape": u.shape(),
     });
-    c.count(&format!("pairs4:{class}:equal={eq_m}:proportional={seq_m}"), 1);
+    cnt(&format!("pairs4:{class}:equal={eq_m}:proportional={seq_m}"), 1);
     // exact type: every clause is decided
     let (t1, u1) = (t.clone(), u.clone());
     report_bool("==", "Scalar4", class, guarded(move || t1 == u1), eq_m, family, index, &input);
@@ -1173,12 +1247,12 @@ fn check_pair4(family: &'static str, index: u64, r: &mut Rng) {
         if clearly_unequal {
             report_bool("compare", "Complex64", class, guarded(|| TensorF::compare(&a, &b)), false, family, index, &input);
         } else {
-            c.count("compare:not-judged-in-float(not float-robust)", 1);
+            cnt("compare:not-judged-in-float(not float-robust)", 1);
         }
         if clearly_unprop {
             report_bool("scalar_compare", "Complex64", class, guarded(|| TensorF::scalar_compare(&a, &b)), false, family, index, &input);
         } else {
-            c.count("scalar_compare:not-judged-in-float(not float-robust)", 1);
+            cnt("scalar_compare:not-judged-in-float(not float-robust)", 1);
         }
     }
     let h = hash_bytes(format!("{:?}{:?}{lt:?}{lu:?}", mt.data, mu.data).as_bytes());
@@ -1243,7 +1317,7 @@ fn check_pairf(family: &'static str, index: u64, r: &mut Rng) {
             let (t1, u1) = (t.clone(), u.clone());
             report_bool("scalar_eq", "Complex64", class, guarded(move || TensorF::scalar_eq(&t1, &u1)), false, family, index, &input);
         } else {
-            c.count("scalar_eq:not-judged-in-float(not float-robust)", 1);
+            cnt("scalar_eq:not-judged-in-float(not float-robust)", 1);
         }
     }
     let h = hash_bytes(format!("{:?}{:?}{lt:?}{lu:?}", mt.data, mu.data).as_bytes());
@@ -1260,7 +1334,7 @@ fn check_compare_objects(family: &'static str, index: u64, r: &mut Rng) {
         if let (Tens::Exact(a), Tens::Exact(b)) = (e0, e1) {
             let eq_m = same_len && a == b;
             let seq_m = same_len && eval::proportional_exact(a, b);
-            c.count(&format!("objects:{class}:equal={eq_m}:proportional={seq_m}"), 1);
+            cnt(&format!("objects:{class}:equal={eq_m}:proportional={seq_m}"), 1);
             let [r0, r1] = res4;
             report_bool("compare(objects)", "Scalar4", class, r0, eq_m, family, index, &input);
             report_bool("scalar_compare(objects)", "Scalar4", class, r1, seq_m, family, index, &input);
@@ -1284,7 +1358,7 @@ fn check_compare_objects(family: &'static str, index: u64, r: &mut Rng) {
             if !same_len || (both_nonzero && (!eval::proportional_float(&f0, &f1, 1e-3) || !eval::proportional_float(&f1, &f0, 1e-3))) {
                 report_bool("scalar_compare(objects)", "Complex64", class, r1, false, family, index, &input);
             } else {
-                c.count("scalar_compare(objects):not-judged-in-float(not float-robust)", 1);
+                cnt("scalar_compare(objects):not-judged-in-float(not float-robust)", 1);
             }
         }
     };
@@ -1310,6 +1384,11 @@ fn check_compare_objects(family: &'static str, index: u64, r: &mut Rng) {
                 c1.gates.push(G::Rz(q, (1, 4)));
                 let mut c0b = c0.clone();
                 c0b.gates.extend([G::X(q), G::Rz(q, (-1, 4)), G::X(q)]);
+                if !judge_circuit(&c0b).0.is_empty() || !judge_circuit(&c1).0.is_empty() {
+                    cnt("objects:skipped(operand tensor already wrong)", 1);
+                    c.skipped();
+                    return;
+                }
                 let (e0, e1) = (oracle_circuit(&c0b), oracle_circuit(&c1));
                 let (q0, q1) = (to_quizx(&c0b), to_quizx(&c1));
                 let input = json!({"class": class, "sub": "global-phase", "c0": circ_json(&c0b), "c1": circ_json(&c1)});
@@ -1325,6 +1404,11 @@ fn check_compare_objects(family: &'static str, index: u64, r: &mut Rng) {
                     c1.gates.remove(k);
                 }
             }
+        }
+        if !judge_circuit(&c0).0.is_empty() || !judge_circuit(&c1).0.is_empty() {
+            cnt("objects:skipped(operand tensor already wrong)", 1);
+            c.skipped();
+            return;
         }
         let (e0, e1) = (oracle_circuit(&c0), oracle_circuit(&c1));
         let (q0, q1) = (to_quizx(&c0), to_quizx(&c1));
@@ -1402,6 +1486,14 @@ fn compare_descs(
             return;
         }
     };
+    // compare() claims equality of the evaluated tensors; if an operand's evaluation is
+    // itself wrong that is reported by the diagram families, not blamed on compare()
+    let operand_ok = |r: Result<(Vec<Finding>, JudgeStats), EvalError>| matches!(r, Ok((f, _)) if f.is_empty());
+    if !operand_ok(judge_graph(&g0)) || !operand_ok(judge_graph(&g1)) {
+        cnt("objects:skipped(operand tensor already wrong)", 1);
+        c.skipped();
+        return;
+    }
     let input = json!({"class": class, "g0(vec backend)": d0.to_json(), "g1(hash backend, scrambled ids)": d1.to_json()});
     let res4 = [guarded(|| Tensor4::compare(&g0, &g1)), guarded(|| Tensor4::scalar_compare(&g0, &g1))];
     let resf = [guarded(|| TensorF::compare(&g0, &g1)), guarded(|| TensorF::scalar_compare(&g0, &g1))];
@@ -1491,7 +1583,7 @@ pub fn run() {
     c.assume("plug_n_qubits is called with every n <= min(ndim self, ndim other) as its doc comment allows; delta_at / cphase_at with distinct in-range axes");
 
     // ---- diagrams -----------------------------------------------------------------------
-    let k = t.pick(3usize, 60usize);
+    let k = t.pick(3usize, 40usize);
     let ms = t.pick(8usize, 11usize);
     par_cases("diag-arbitrary-exact", 700 * k, move |r, i| {
         let d = gen_random(r, &DiagParams { max_spiders: ms, max_bnd: 6, pool: PhasePool::Exact, graph_like: false, bare_wires: true, var_prob: 0.0 });
@@ -1588,4 +1680,5 @@ pub fn run() {
         c.extra("sanitizer_miri", json!({"ran": false, "reason": "thorough tier only"}));
     }
     c.extra("exhaustive", json!(false));
+    flush_counters();
 }
